@@ -55,9 +55,10 @@ def scan_assumptions(gen_text):
     return sorted(set(out))
 
 
-def run_module(mod):
+def run_module(mod, tag=""):
     import plan
-    d = os.path.join(CACHE, mod)
+    # one directory per (property, module): checks of different properties may run at the same time
+    d = os.path.join(CACHE, tag, mod) if tag else os.path.join(CACHE, mod)
     os.makedirs(d, exist_ok=True)
     pj, gen, lg = os.path.join(d, "plan.json"), os.path.join(d, "gen.rs"), os.path.join(d, "extract_log.json")
     res = {"module": mod, "status": "ok", "functions": {}, "errors": [], "rewrites": [], "assumed_items": [],
@@ -166,7 +167,7 @@ def run_module(mod):
     return res
 
 
-def run_modules(mods):
+def run_modules(mods, tag=""):
     mods = sorted(set(mods))
     with cf.ThreadPoolExecutor(max_workers=min(8, max(1, len(mods)))) as ex:
-        return {m: r for m, r in zip(mods, ex.map(run_module, mods))}
+        return {m: r for m, r in zip(mods, ex.map(lambda m: run_module(m, tag), mods))}
